@@ -27,7 +27,7 @@ from vz.props import c14
 
 META = "<>/%#()$= "
 EXTRA = "-.1\u00e9\t"      # out-of-vocabulary characters (not grammar metacharacters)
-JUNK_LINES = ["<>", "</>", "<", ">", "</", "%", "$", "(", ")", "<//>", "< >", "%define", "% x", "<a/", "k $", "=",
+JUNK_LINES = ["%define $e", "%define ${v1} y", "%define $e$e", "<>", "</>", "<", ">", "</", "%", "$", "(", ")", "<//>", "< >", "%define", "% x", "<a/", "k $", "=",
               "<a b c>", "</a b>", "%include", "%import", "# c", "1/2=3"]
 
 
@@ -97,6 +97,9 @@ def long_seed():
     S = M.rich_schemas()[0][1]
     text = """# a long seed
 %define v1 x
+%define e
+%define w $e
+m1 ${e}z$w
 k2 $v1
 k1 7
 m1 a  b
